@@ -293,7 +293,7 @@ impl Color {
         let blue = self.blue() / Number(255.0);
         let min = red.min(green.min(blue));
         let max = red.max(green.max(blue));
-        (((min + max) / Number(2.0)) * Number(100.0)).round()
+        ((min + max) / Number(2.0)) * Number(100.0)
     }
 
     pub fn as_hsla(&self) -> (Number, Number, Number, Number) {
